@@ -78,7 +78,8 @@ def _constants_of(cfg):
 def model_check(ctx, prop):
     # the quick config always runs with -coverage 1 (vacuity guard, per-action counts); the big one without (2x cost)
     cfgs = ["SnapSeq_mc_quick.cfg"] if ctx.quick else ["SnapSeq_mc_quick.cfg", "SnapSeq_mc_thorough.cfg"]
-    if prop == "C10":
+    if prop == "C10" and not ctx.quick:
+        # (thorough only; the quick tier relies on the directed real histories d-nb-*, d-order-*, d-keep-*)
         # regression probe for the fixed RevertStatus defect (2565626): 4 operations on 2 revisions reach
         # install; refresh; revert(NotBlocked); failed refresh-to-kept, which MaxOps=3 does not
         cfgs.append("SnapSeq_mc_c10strict.cfg")
@@ -91,7 +92,10 @@ def model_check(ctx, prop):
     if prop == "C12":
         # kernel on classic (retain 2), boot uses rev 1: install; refresh 2; refresh 3; refresh 4 puts an in-use
         # revision FIRST in a garbage-collection range that has a further candidate after it
-        cfgs.append("SnapSeq_mc_c12gc.cfg")
+        if not ctx.quick:
+            cfgs.append("SnapSeq_mc_c12gc.cfg")
+        # install; refresh 2; refresh 3; revert to 1; refresh to 2: two leftovers after current, target is not the last
+        cfgs.append("SnapSeq_mc_c12left.cfg")
         cfgs.append(ctx.pick("SnapSeq_mc_kernel_quick.cfg", "SnapSeq_mc_kernel.cfg"))     # boot.InUse answers
     total = {"states": 0, "transitions": 0, "coverage": {}, "constants": {}, "wall": 0.0, "depth": 0}
     for base in cfgs:
@@ -233,9 +237,10 @@ def replay(ctx, tb, histories, what):
 
 # which directed scenarios the QUICK tier of each property replays (thorough: all of them, for every property)
 DIRECTED_FOR = {
-    "C10": ("d-nb-k1", "d-nb-k9", "d-nb-store", "d-attrs-", "d-keep-", "d-order-n3-", "d-order-n4-t1", "d-missingrevs-"),
+    "C10": ("d-nb-k9", "d-nb-k10", "d-nb-k12", "d-nb-k17", "d-nb-store", "d-attrs-k15", "d-keep-", "d-order-n3-t1",
+            "d-order-n4-t2", "d-missingrevs-k17", "d-leftover-n5-back3-middle"),
     "C11": ("d-remove", "d-partial-discard-", "d-attrs-", "d-kernel-1", "d-nb-store", "d-missingrevs-"),
-    "C12": ("d-retain-", "d-kernel-", "d-missingrevs-", "d-blocked"),
+    "C12": ("d-retain-", "d-kernel-", "d-missingrevs-k17", "d-blocked", "d-leftover-"),
     "C13": ("d-reverts-", "d-blocked", "d-nb-store", "d-nb-k1", "d-order-n3-t1", "d-kernel-1", "d-remove-current-inactive"),
 }
 
@@ -346,6 +351,22 @@ def directed_histories():
         }
         for name, ch in chains.items():
             hs.append({"id": "d-reverts-n%d-%s" % (n, name), "onClassic": n == 3, "ops": base + ch})
+    # 2-3 revisions left over after current (consecutive reverts / revert back by >= 2), then a refresh to the FIRST, a
+    # MIDDLE, the LAST leftover and to a NEW revision, with a fault after link-snap first and then for real: all leftovers
+    # other than the target must be discarded
+    def left(name, n, back, target, classic=False):
+        ops = [op("setretain", val=5)] + [op("install", rev=1)] + [op("refresh", rev=r) for r in range(2, n + 1)]
+        ops += back
+        ops += [op("refresh", rev=target, fk=15), op("refresh", rev=target, store=(target % 2 == 0)),
+                op("candidates", rev=1), op("revert", rev=0), op("refresh", rev=target)]
+        hs.append({"id": "d-leftover-" + name, "onClassic": classic, "ops": ops})
+    left("n4-revert2x-first", 4, [op("revert", rev=0), op("revert", rev=0, nb=True)], 3)
+    left("n4-back2-last", 4, [op("revert", rev=2)], 4, classic=True)
+    left("n4-back2-new", 4, [op("revert", rev=2, nb=True)], 5)
+    left("n5-back3-first", 5, [op("revert", rev=2)], 3, classic=True)
+    left("n5-back3-middle", 5, [op("revert", rev=2, nb=True)], 4)
+    left("n5-back3-last", 5, [op("revert", rev=3), op("revert", rev=2)], 5)
+    left("n5-back4-middle", 5, [op("revert", rev=1)], 3)
     # failed refresh to a kept revision after older revisions were discarded in the same change
     # (old-candidate-index must be corrected by countMissingRevs)
     for kk in (17, 18, 19):
